@@ -168,6 +168,25 @@ theorem coveredFrom_valid (lo : Nat) (bs : List (Nat × Nat)) (hb : ValidBlanks 
         simp; omega
     · simpa using htail
 
+theorem coveredFrom_le_max (lo : Nat) (bs : List (Nat × Nat)) (hb : ValidBlanks lo bs) :
+    ∀ r ∈ coveredFrom lo bs, r.2 ≤ U128MAX := by
+  induction bs generalizing lo with
+  | nil =>
+    intro r hr
+    unfold coveredFrom at hr
+    split at hr
+    · simp at hr; subst hr; exact Nat.le_refl _
+    · simp at hr
+  | cons b rest ih =>
+    intro r hr
+    unfold coveredFrom at hr
+    have hbe := hb.each b (by simp)
+    rcases List.mem_append.mp hr with h | h
+    · split at h
+      · simp at h; subst h; simp; omega
+      · simp at h
+    · exact ih (b.2 + 1) hb.tail r h
+
 /-! ## the codec -/
 
 theorem compact_codec_exact (rs : Ranges) (hv : ValidRanges rs) (hamp : amplitude rs < 2 ^ 64)
